@@ -23,8 +23,8 @@ PID = "C14"
 LEVEL = "proof"
 LEAN = ["SaVerif.Props.C14"]
 META = {
-    "text": "Lean theorems for every schema (any number of tables, any FK graph incl. self references, cycles, use_alter, several constraints to one target, add_is_dependent_on edges, any pre-existing backend content): create_all's DDL is accepted by a strict backend (CREATE TABLE only references tables that exist, ALTER ADD last) and leaves every table, index and FK constraint present; drop_all's DDL is accepted and removes them (under the guard the proof forces, see note); sorted_tables puts the referred table first for every FK whose owner is not on a cycle; the second sort after cycle breaking cannot fail when there are no add_is_dependent_on edges (given find_cycles hits every closed set). The model is a hand transcription of sql/ddl.py tied to it by differential runs of sort_tables_and_constraints and of captured create_all/drop_all DDL scripts on five ALTER-capable dialects and on real SQLite; the property itself is re-checked on the captured DDL by an independent strict-backend simulator and on the SQLite catalog.",
-    "note": "Partial: drop_all_accepted_partial needs (a) named constraints for use_alter/cycle members (documented: CircularDependencyError / CompileError otherwise) and (b) no table on a cycle owning both a named and an unnamed constraint to the same target - drop_all_counterexample_shared_target is a genuine defect (known finding drop-shared-target-named-unnamed-cycle). create_all_accepted needs the constraints ALTERed by an earlier create_all not to be needed inline later: AddConstraint(isolate_from_table=True) in SchemaGenerator permanently disables them (create_all_counterexample_isolated, known finding create-after-alter-isolated-constraint). second_sort_total is conditional on find_cycles meeting every parent-closed set (C19 validates find_cycles by correspondence only). Strict backend = model of PostgreSQL's rule, not PostgreSQL. Sequences, views, comments, schemas are not modelled.",
+    "text": "Lean theorems for every schema (any number of tables, any FK graph incl. self references, cycles, use_alter, several constraints to one target, add_is_dependent_on edges, any pre-existing backend content): create_all's DDL is accepted by a strict backend (CREATE TABLE only references tables that exist, ALTER ADD last) and leaves every table, index and FK constraint present; drop_all's DDL is accepted and removes them (under the guard the proof forces, see note); sorted_tables puts the referred table first for every FK whose owner is not on a cycle; the second sort after cycle breaking cannot fail when there are no add_is_dependent_on edges (unconditional for the real find_cycles, via C19's find_cycles_exact and a pigeonhole lemma). The model is a hand transcription of sql/ddl.py tied to it by differential runs of sort_tables_and_constraints and of captured create_all/drop_all DDL scripts on five ALTER-capable dialects and on real SQLite; the property itself is re-checked on the captured DDL by an independent strict-backend simulator and on the SQLite catalog.",
+    "note": "Partial: drop_all_accepted_partial needs (a) named constraints for use_alter/cycle members (documented: CircularDependencyError / CompileError otherwise) and (b) no table on a cycle owning both a named and an unnamed constraint to the same target - drop_all_counterexample_shared_target is a genuine defect (known finding drop-shared-target-named-unnamed-cycle). create_all_accepted needs the constraints ALTERed by an earlier create_all not to be needed inline later: AddConstraint(isolate_from_table=True) in SchemaGenerator permanently disables them (create_all_counterexample_isolated, known finding create-after-alter-isolated-constraint). second_sort_total_unconditional discharges the find_cycles hypothesis with C19's find_cycles_exact (the generic versions for any cycle oracle are kept). Strict backend = model of PostgreSQL's rule, not PostgreSQL. Sequences, views, comments, schemas are not modelled.",
     "technique": "Lean 4 proof (induction over the emitted DDL list using C19's sort_respects/sort_perm; loop invariant over the cycle-breaking fold) + differential correspondence on captured DDL + strict-backend oracle",
     "design_ref": "DESIGN.md §3 C14",
 }
